@@ -178,10 +178,10 @@ def _do_set(p, node_path, field, value, route):
         return "exc:" + type(ex).__name__
 
 
-def _set_event(p, node_path, field, value, route, sig):
-    before = snapshot(p)
+def _set_event(p, node_path, field, value, route, sig, memo):
+    before = memo.get("snap") or snapshot(p)          # the snapshot after the previous Set on the same object
     res = _do_set(p, node_path, field, value, route)
-    after = snapshot(p)
+    after = memo["snap"] = snapshot(p)
     vals = [[list(path), tok] for (path, k), tok in sorted(after.items()) if k == field]
     changed = [[list(path), k] for (path, k) in sorted(set(before) | set(after))
                if before.get((path, k), "<absent>") != after.get((path, k), "<absent>")]
@@ -199,22 +199,22 @@ def _exec_tree(case):
     at = "root" if not node_path else ("leaf" if not any(len(q) > len(node_path) and q[:len(node_path)] == node_path
                                                           for q in all_nodes) else "inner")
     for field in case["fields"]:
-        p = MPDrawParams()
+        p, memo = MPDrawParams(), {}
         v1, v2 = _values_for(field, p, node_path)
         below = any(len(q) >= len(node_path) and q[:len(node_path)] == node_path and field in vars(_node(p, q))
                     for q in all_nodes)
         name = field if field in ("time_begin", "time_end", "facecolor", "show_label", "zorder", "antialiased") else "field"
         sig = "propagate/%s@%s%s" % (name, at, "" if below else "/undeclared-below")
-        ev.append(_set_event(p, node_path, field, v1, "attr", sig))
+        ev.append(_set_event(p, node_path, field, v1, "attr", sig, memo))
         if not below:
             continue
-        ev.append(_set_event(p, node_path, field, v1, "item", sig + "/again"))
+        ev.append(_set_event(p, node_path, field, v1, "item", sig + "/again", memo))
         # a Set of another field somewhere else, then the first field once more with another value
         other = rng.choice(all_nodes)
         g = rng.choice([f for f in case["fields"] if f != field])
         w = _values_for(g, p, other)[0]
-        ev.append(_set_event(p, other, g, w, "attr", "propagate/other-field"))
-        ev.append(_set_event(p, node_path, field, v2, "attr", sig + "/after-other"))
+        ev.append(_set_event(p, other, g, w, "attr", "propagate/other-field", memo))
+        ev.append(_set_event(p, node_path, field, v2, "attr", sig + "/after-other", memo))
     return ev
 
 
@@ -644,7 +644,7 @@ def _total_once(figs, arch, b, e, flags, lf, pf):
     return dres, rres
 
 
-_MINIMAL = {}       # per process: (arch, b, e, outcome) -> list of minimal settings already found
+_MINIMAL = {}       # per process: outcome -> [(minimal settings, culprit archetype)] already found
 
 
 def _short(key):
@@ -653,38 +653,73 @@ def _short(key):
 
 
 def minimise(figs, arch, b, e, flags, lf, pf, outcome):
-    """Smallest set of non-default settings (greedy removal) that still gives the same outcome: the label of the finding.
-    Only computes a name; the verdict is the logged outcome of the original run."""
+    """Smallest set of non-default settings that still gives the same outcome: the label of the finding.
+    Only computes a name (by re-running the real code with fewer settings); the verdict is the logged outcome of the
+    original run.  Causes found earlier in this process are tried first (one confirming run each)."""
     defaults = flag_defaults()
-    cur = {k: v for k, v in flags.items() if k.startswith(":") or defaults[k] != v}
+    rooted = {k[1:] for k in flags if k.startswith(":")}
+    # keep a group-level flag at its default when a top-level flag of the same field is in the row (it masks it)
+    cur = {k: v for k, v in flags.items() if k.startswith(":") or defaults[k] != v or k.split(":")[1] in rooted}
     feats = {"lanelets": lf, "problems": pf}
-    items = frozenset(list(cur.items()) + [(k, v) for k, v in feats.items() if v != "all"])
-    for known in _MINIMAL.get((arch, b, e, outcome), []):
-        if known <= items:
-            return known
-    for key in sorted(cur, key=lambda k: (k.startswith(":"), k)):
-        trial = dict(cur)
-        del trial[key]
-        if _total_once(figs, arch, b, e, trial, feats["lanelets"], feats["problems"]) == outcome:
+    run = lambda fl, ft, a=arch: _total_once(figs, a, b, e, fl, ft["lanelets"], ft["problems"])
+
+    def split(settings):
+        fl = {k: v for k, v in settings if k not in ("lanelets", "problems")}
+        ft = dict({"lanelets": "all", "problems": "all"}, **{k: v for k, v in settings if k in ("lanelets", "problems")})
+        return fl, ft
+
+    items = set(list(cur.items()) + [(k, v) for k, v in feats.items() if v != "all"])
+    for (settings, culprit) in _MINIMAL.get(outcome, []):
+        if settings <= items and culprit in (arch, "any-scenario") and run(*split(settings)) == outcome:
+            return settings, culprit
+    if run(cur, feats) != outcome:
+        cur = dict(flags)
+
+    def reduce(keys):                                  # drop whole blocks of settings while the outcome stays
+        nonlocal cur
+        if not keys:
+            return
+        trial = {k: v for k, v in cur.items() if k not in keys}
+        if run(trial, feats) == outcome:
             cur = trial
+        elif len(keys) > 1:
+            reduce(keys[:len(keys) // 2])
+            reduce(keys[len(keys) // 2:])
+    reduce(sorted(cur, key=lambda k: (not k.startswith(":"), k)))           # top-level flags first
     for k in ("lanelets", "problems"):
         if feats[k] != "all":
             trial = dict(feats, **{k: "all"})
-            if _total_once(figs, arch, b, e, cur, trial["lanelets"], trial["problems"]) == outcome:
+            if run(cur, trial) == outcome:
                 feats = trial
-    res = frozenset(list(cur.items()) + [(k, v) for k, v in feats.items() if v != "all"])
-    _MINIMAL.setdefault((arch, b, e, outcome), []).append(res)
+    # a top-level flag that is needed: name the single group whose flag is responsible, if there is one
+    for key in sorted(k for k in cur if k.startswith(":")):
+        for nk in sorted(k for k in NODE_FLAGS if not k.startswith(":") and k.split(":")[1] == key[1:]):
+            if nk in cur or defaults[nk] == cur[key]:
+                continue
+            trial = dict(cur)
+            del trial[key]
+            trial[nk] = cur[key]
+            if run(trial, feats) == outcome:
+                cur = trial
+                break
+    # is the archetype part of the cause?  (same outcome on another archetype -> it is not)
+    culprit = arch
+    if arch != "empty" and run(cur, feats, "plain" if arch != "plain" else "point-mass") == outcome:
+        culprit = "any-scenario"
+    res = (frozenset(list(cur.items()) + [(k, v) for k, v in feats.items() if v != "all"]), culprit)
+    _MINIMAL.setdefault(outcome, []).append(res)
     return res
 
 
-def _label(minimal, arch):
+def _label(minimal):
+    settings, culprit = minimal
     parts = []
-    for k, v in sorted(minimal):
+    for k, v in sorted(settings):
         if k in ("lanelets", "problems"):
             parts.append("%s=%s" % (k, v))
         else:
             parts.append(_short(k) if v else "no-" + _short(k))
-    return "total/" + "+".join(parts + [arch])
+    return "total/" + "+".join(parts + [culprit])
 
 
 def _exec_total(case):
@@ -696,7 +731,7 @@ def _exec_total(case):
             outcome = _total_once(figs, arch, b, e, flags, lf, pf)
             sig = "total/%s/%s" % (arch, wname)
             if outcome != ("ok", "ok"):
-                sig = _label(minimise(figs, arch, b, e, flags, lf, pf, outcome), arch)
+                sig = _label(minimise(figs, arch, b, e, flags, lf, pf, outcome))
             base = {"part": "total", "arch": arch, "win": wname, "b": b, "e": e, "on": on, "lf": lf, "pf": pf, "sig": sig}
             ev.append(dict(base, op="draw", res=outcome[0]))
             ev.append(dict(base, op="render", res=outcome[1]))
@@ -711,7 +746,8 @@ def _exec_total(case):
 # =====================================================================================================================
 
 def model_check(ctx):
-    ctx.mc("MC_Render", "MC_Render_t.cfg" if ctx.thorough else "MC_Render.cfg", coverage=True, timeout=1800)
+    # coverage off for the tree model (x4 run time; its only action is DoSet, the state count shows it is taken)
+    ctx.mc("MC_Render", "MC_Render_t.cfg" if ctx.thorough else "MC_Render.cfg", coverage=False, timeout=1800)
     ctx.mc("MC_Render", "MC_Render_win.cfg", coverage=True)
 
 
@@ -752,9 +788,12 @@ def cases(ctx):
     # (2) windows: every descriptor x window, all lanelet filters; all descriptors in one scenario per window
     win = ctx.gen("MC_Render", "GEN_Render_win.cfg")
     descs, windows = [], []
-    for c in win:
+    fl = sorted(FILTERS)
+    for i, c in enumerate(sorted(win, key=lambda c: json.dumps(c, sort_keys=True))):
         d = {"id": 1, "kind": c["desc"]["kind"], "t0": c["desc"]["t0"], "n": c["desc"]["n"]}
-        cs.append({"part": "window", "obs": [d], "b": c["b"], "e": c["e"], "filters": sorted(FILTERS)})
+        # quick: two of the seven lanelet filters per case, rotating (the filter does not interact with the obstacle)
+        cs.append({"part": "window", "obs": [d], "b": c["b"], "e": c["e"],
+                   "filters": fl if ctx.thorough else [fl[i % len(fl)], fl[(i + 3) % len(fl)]]})
         if d not in descs:
             descs.append(d)
         if [c["b"], c["e"]] not in windows:
